@@ -20,13 +20,16 @@ for d in sorted(glob.glob('/verif/seeded/C*_m*')):
             det.append(f'{c}: not detected')
     summ = (m.get('summary') or '').replace('\n', ' ').replace('|', '\\|')
     first = re.split(r'(?<=[.;:]) ', summ)[0][:230]
-    rows.append((m['id'], m['breaks_property'], ', '.join(m.get('files') or []), first, '; '.join(det) or 'not run'))
+    fc = ''
+    for c, r in sorted(m.get('first_contact', {}).items()):
+        fc = 'detected' if r.get('detected') else ('inconclusive' if r.get('exit') == 2 else 'not detected')
+    rows.append((m['id'], m['breaks_property'], ', '.join(m.get('files') or []), first, '; '.join(det) or 'not run', fc or 'same'))
 out = ['# Seeded changes and the checks that catch them', '',
        'Each change was written by a fresh sub-agent given only the property text and a scratch worktree, confirmed here in a',
        'scratch worktree (unedited suite passes with it; its demonstration fails with it and passes without it) and then applied',
        'to /repo, checked with the registered quick command, and undone (`seed_eval.py run <id>`). `meta.json` in each directory has',
-       'the full description, what the change needs in order to manifest, and the output lines of the check.', '',
-       '| id | breaks | files | change (first sentence) | quick check |', '|---|---|---|---|---|']
+       'the full description, what the change needs in order to manifest, and the output lines of the check. For the changes of the fourth round (m7, m8) the', 'outcome of the first run - with the checks as they were before that round - is kept in `first_contact`: "same" means the first run is the final one.', '',
+       '| id | breaks | files | change (first sentence) | quick check (final) | first run, before strengthening (round 4 only) |', '|---|---|---|---|---|---|']
 for r in rows:
     out.append('| ' + ' | '.join(r) + ' |')
 n = len(rows)
